@@ -82,6 +82,6 @@ def write(prop, tier, seed, ded, bnd, violations, known_hits, undecided, wall):
     cov["known_findings_reported"] = sorted({(k.get("id") or k.get("what")) for k, _ in known_hits})
     ev = dict(property_id=prop, tier=tier, seed=seed, level=level, coverage=cov, assumptions=assumptions,
               wall_s=round(wall, 2), violations=len(violations))
-    os.makedirs(os.path.join(ROOT, "evidence"), exist_ok=True)
-    with open(os.path.join(ROOT, "evidence", prop + ".json"), "w") as f:
+    os.makedirs(os.path.join(os.environ.get("VERIF_OUT", ROOT), "evidence"), exist_ok=True)
+    with open(os.path.join(os.environ.get("VERIF_OUT", ROOT), "evidence", prop + ".json"), "w") as f:
         json.dump(ev, f, indent=1, default=str)
